@@ -7,11 +7,11 @@ git -C /repo worktree remove --force $WT 2>/dev/null
 git -C /repo worktree add -q --detach $WT HEAD || exit 2
 for d in ${@:-$(ls $SRC)}; do
   [ -f $SRC/$d/patch.diff ] || continue
-  cd $WT && git checkout -q -- . 
+  cd $WT && git reset -q --hard HEAD
   if ! git apply --check $SRC/$d/patch.diff 2>/dev/null; then echo "$d: PATCH-DOES-NOT-APPLY"; continue; fi
   git apply $SRC/$d/patch.diff
   PYTHONPATH=$WT/src timeout 900 /venv/bin/python $SRC/$d/demo.py > /tmp/eval-$d-with.log 2>&1; W=$?
-  git checkout -q -- .
+  git reset -q --hard HEAD
   PYTHONPATH=$WT/src timeout 900 /venv/bin/python $SRC/$d/demo.py > /tmp/eval-$d-without.log 2>&1; WO=$?
   echo "$d: with-patch exit=$W without-patch exit=$WO"
 done
